@@ -7,4 +7,4 @@ def check(run, tier, seed, replay=None):
     pc.phase_check(run, "C05", tier, seed, replay, scs, "C05Corr.judge",
                    lambda sc, obs: "C05 delete of an uncontrolled object / wrong preconditions / effect on a different version / foreign object touched",
                    "exhaustive teardown table (ownership state x strategy x teardown preflight outcome x third-party op between "
-                   "read and write x finalizer x cache label) through the real TeardownPhase on the recording server, plus seeded random teardowns")
+                   "read and write x finalizer x cache label) through the real TeardownPhase on the recording server, plus seeded random teardowns", faults=True)
